@@ -240,6 +240,9 @@ def normalise(qual, func):
     ref = reference().get(qual)
     if not ref:
         return {}
+    cur = local_names(func)
+    if not (cur - set(ref)) or not (set(ref) - cur):
+        return {}            # nothing new, or nothing vanished: no rename
     mp = mapping(func, ref)
     # parameters that callers may pass by keyword keep their name unless the
     # function is private (leading underscore) - the keyword is API
